@@ -107,8 +107,16 @@ def run(ctx: Ctx) -> None:
     sidx = sorted(sinfo["indices"])
     if ctx.quick:
         # one single-precision testcase per component and a sample of the rest
+        # every component keeps up to 8 testcases (all of the small ones), chosen by the seed
         rng.shuffle(sidx)
-        sidx = sorted(sidx[:60])
+        per: dict[str, int] = {}
+        keep = []
+        for i_ in sidx:
+            c_ = sinfo["component_of"].get(str(i_), "?")
+            if per.get(c_, 0) < 8:
+                per[c_] = per.get(c_, 0) + 1
+                keep.append(i_)
+        sidx = sorted(keep)
     all_opsets = list(range(21, newest + 1))
     cres = run_tasks([{"fn": "harness.opsetjobs:context_job", "args": {"indices": c, "opsets": all_opsets}, "timeout": 3000} for c in [sidx[i::n] for i in range(n)] if c], nworkers=n, timeout=3000)
     nctx = 0
